@@ -35,7 +35,7 @@ def _run_one(prop: str, spec: dict, timeout: float) -> dict:
         outf = Path(td) / 'out.json'
         specf.write_text(json.dumps(spec))
         env = dict(os.environ)
-        env['PYTHONHASHSEED'] = '0'
+        env['PYTHONHASHSEED'] = str(spec.get('hashseed', 0))    # checks may vary it per shard
         env['PYTHONPATH'] = str(VERIF)
         env['PYTHONDONTWRITEBYTECODE'] = '1'
         env.pop('AEIC_PATH', None)
